@@ -48,6 +48,11 @@ type DepSpec struct {
 	Name string `json:"name,omitempty"`
 }
 
+type TagSpec struct {
+	Name string `json:"name"`
+	Prio int    `json:"prio"`
+}
+
 type Op struct {
 	Op    string    `json:"op"`
 	Name  string    `json:"name,omitempty"`
@@ -56,6 +61,7 @@ type Op struct {
 	Ctor  string    `json:"ctor,omitempty"`
 	Deps  []DepSpec `json:"deps,omitempty"`
 	Scope string    `json:"scope,omitempty"`
+	Tags  []TagSpec `json:"tags,omitempty"`
 	// stress
 	G    int   `json:"g,omitempty"`
 	Reps int   `json:"reps,omitempty"`
@@ -302,6 +308,9 @@ func (r *runner) exec(op Op, res *Res) {
 			s.SetScopeContextual()
 		case "non_shared":
 			s.SetScopeNonShared()
+		}
+		for _, t := range op.Tags {
+			s.Tag(t.Name, t.Prio)
 		}
 		r.c.OverrideService(op.Name, s)
 		res.OK = true
